@@ -151,7 +151,7 @@ FirstDiff(a, b) == IF \E i \in 1 .. Len(a) : i > Len(b) \/ a[i] # b[i]
                    THEN CHOOSE i \in 1 .. Len(a) : (i > Len(b) \/ a[i] # b[i]) /\ \A j \in 1 .. i - 1 : j <= Len(b) /\ a[j] = b[j]
                    ELSE Len(a) + 1
 RunWhy(file, run) ==
-  IF run.err # "" \/ run.herr # "" THEN <<"error", run.procs, run.err, run.herr>>
+  IF run.err # "" \/ run.herr # "" THEN <<"error", run.procs, run.err, run.herr, "reader", run.reader>>
   ELSE IF ~HeaderOK(file, run) THEN <<"header", run.procs, "expected", DecodeHeader(file.header), "got", run.header>>
   ELSE LET exp == DecodeFile(file)  i == FirstDiff(exp, run.elems) IN
        <<"element", i, "procs", run.procs, "profile", run.profile,
@@ -189,7 +189,7 @@ FilteredRunOK(c, run) ==
   /\ ShownOK(c.file, c.skip, c.inst, run.shown)
 
 FilteredRunWhy(c, run) ==
-  IF run.err # "" THEN <<"error", run.procs, run.err>>
+  IF run.err # "" THEN <<"error", run.procs, run.err, "reader", run.reader>>
   ELSE IF ~NoneMutated(run) THEN <<"returned object modified afterwards", "procs", run.procs, run.mutated>>
   ELSE LET exp == Filtered(c.file, c.skip, c.inst, c.accept) IN
        IF run.elems # exp
